@@ -266,6 +266,17 @@ func (w *World) modelValue(o *Obligation, x string, t types.Type, st *State) (st
 			return "", nil, fmt.Errorf("slice of %s not replayable", u.Elem())
 		}
 		lt, ct, bt := "(sl.len "+x+")", "(sl.cap "+x+")", "(sl.base "+x+")"
+		// prefer small models: no spare capacity, short slice
+		for _, pin := range []string{"(assert (= " + ct + " " + lt + "))", "(assert " + c.ile(lt, c.idxLit(256)) + ")"} {
+			saved := modelPins[o]
+			modelPins[o] = append(append([]string{}, saved...), pin)
+			if _, err := getValues(o, []string{lt}, 20); err != nil {
+				modelPins[o] = saved
+			} else {
+				// keep the preference, not the values of this probe's model
+				modelPins[o] = append(append([]string{}, saved...), pin)
+			}
+		}
 		vs, err := getValues(o, []string{lt, ct, bt}, 20)
 		if err != nil {
 			return "", nil, err
@@ -399,6 +410,10 @@ func (w *World) buildReplay(dir, id string, r *Result, why string) *replayFile {
 	if fn == nil {
 		rf.ReplayNote = "not a function obligation"
 		return rf
+	}
+	if r.Relaxed {
+		o.Relaxed = true
+		defer func() { o.Relaxed = false }()
 	}
 	if tmpl := w.replayTemplate(fn); tmpl != nil {
 		return tmpl(w, dir, id, r, rf)
@@ -538,9 +553,17 @@ func TestGovcReplay(t *testing.T) {
 			rf.Observed = line
 			if o.Kind == "ensures" {
 				pj, _ := json.Marshal(predicted)
-				rf.Reproduced = strings.TrimSpace(strings.TrimPrefix(line, "GOVC-REPLAY-OUT ")) == string(pj)
+				obs := strings.TrimSpace(strings.TrimPrefix(line, "GOVC-REPLAY-OUT "))
+				rf.Reproduced = obs == string(pj)
 				if !rf.Reproduced {
-					rf.ReplayNote = "real outputs differ from the model's prediction " + string(pj)
+					// the real outputs differ from the model's: decide the clause on
+					// the observed inputs and outputs directly
+					if bad, note := w.clauseViolatedBy(o, obs); bad {
+						rf.Reproduced = true
+						rf.ReplayNote = "real outputs differ from the model's prediction " + string(pj) + " but violate the clause as well: " + note
+					} else {
+						rf.ReplayNote = "real outputs differ from the model's prediction " + string(pj) + " (" + note + ")"
+					}
 				}
 			}
 		}
@@ -674,4 +697,127 @@ func (w *World) modelStream(o *Obligation, rexpr string) ([]byte, error) {
 		}
 	}
 	return out, nil
+}
+
+// clauseViolatedBy evaluates the violated ensures clause on the observed
+// outputs of the real run (inputs stay pinned to the model's values). Only
+// clauses over parameters and results of scalar / error / []byte type.
+func (w *World) clauseViolatedBy(o *Obligation, obsJSON string) (bool, string) {
+	c := o.Ctx
+	fn := c.Fn
+	ct := w.Specs.Contracts[funcKey(fn)]
+	if ct == nil || c.entryEnv == nil {
+		return false, "no contract"
+	}
+	var clause *Clause
+	for _, e := range ct.Ensures {
+		if e.Text == o.Text {
+			clause = e
+		}
+	}
+	if clause == nil {
+		return false, "clause not found"
+	}
+	var obs []interface{}
+	if err := json.Unmarshal([]byte(obsJSON), &obs); err != nil {
+		return false, "observed outputs not parsable"
+	}
+	names := resultNames(ct, fn.Signature)
+	env := c.entryEnv.clone()
+	env.goal = false
+	before := len(c.Log)
+	var extra []string
+	for i := 0; i < fn.Signature.Results().Len() && i < len(obs); i++ {
+		rt := fn.Signature.Results().At(i).Type()
+		var v Val
+		switch x := obs[i].(type) {
+		case string:
+			if _, isInt := intInfoOf(rt); isInt {
+				n, ok := new(big.Int).SetString(x, 10)
+				if !ok {
+					return false, "unparsable integer output"
+				}
+				if c.Mode == ModeBV {
+					ii, _ := intInfoOf(rt)
+					n = new(big.Int).Mod(n, pow2(ii.bits))
+				}
+				v = Val{T: c.numLit(n, rt), Typ: rt}
+			} else if _, isIf := rt.Underlying().(*types.Interface); isIf {
+				if x == "nil" {
+					v = Val{T: "(mk-iface 0 0)", Typ: rt}
+				} else {
+					nm := c.fresh("obs")
+					c.declConst(nm, "Iface")
+					extra = append(extra, "(assert (not (= "+q(nm)+" (mk-iface 0 0))))")
+					v = Val{T: q(nm), Typ: rt}
+				}
+			} else {
+				return false, "output type not supported"
+			}
+		case bool:
+			v = Val{T: fmt.Sprint(x), Typ: rt}
+		case []interface{}:
+			sl, ok := rt.Underlying().(*types.Slice)
+			if !ok {
+				return false, "output type not supported"
+			}
+			nm := c.fresh("obs")
+			c.declConst(nm, "Slice")
+			h, srt := c.memHeap(sl.Elem())
+			mem := c.heapInit(h, srt)
+			extra = append(extra, "(assert (= (sl.len "+q(nm)+") "+c.idxLit(int64(len(x)))+"))", "(assert (= (sl.off "+q(nm)+") "+c.idxLit(0)+"))")
+			for k, e := range x {
+				es, _ := e.(string)
+				n, _ := new(big.Int).SetString(es, 10)
+				if n == nil {
+					n = big.NewInt(0)
+				}
+				extra = append(extra, fmt.Sprintf("(assert (= (select (select %s (sl.base %s)) %s) %s))", mem, q(nm), c.idxLit(int64(k)), c.numLit(n, sl.Elem())))
+			}
+			v = Val{T: q(nm), Typ: rt}
+		default:
+			return false, "output type not supported"
+		}
+		if i < len(names) && names[i] != "" && names[i] != "_" {
+			env.vars[names[i]] = v
+		}
+		if fn.Signature.Results().Len() == 1 {
+			env.vars["result"] = v
+		}
+	}
+	t, err := env.boolTerm(clause.E)
+	extra = append(extra, c.Log[before:]...)
+	c.Log = c.Log[:before]
+	if err != nil {
+		return false, "clause not evaluable on outputs: " + err.Error()
+	}
+	// query: declarations, input pins, observed outputs, negated clause
+	var sb strings.Builder
+	pre := c.prelude()
+	sb.WriteString(pre)
+	for _, d := range c.Decls {
+		if strings.HasPrefix(d, "(assert") && strings.Contains(d, "(forall ") {
+			continue
+		}
+		sb.WriteString(d + "\n")
+	}
+	for _, p := range modelPins[o] {
+		sb.WriteString(p + "\n")
+	}
+	for _, x := range extra {
+		sb.WriteString(x + "\n")
+	}
+	sb.WriteString("(assert (not " + t + "))\n(check-sat)\n")
+	f, err := os.CreateTemp("", "govc-obs-*.smt2")
+	if err != nil {
+		return false, err.Error()
+	}
+	defer os.Remove(f.Name())
+	f.WriteString(sb.String())
+	f.Close()
+	r, _, _ := runSolver(solvers[0], f.Name(), 20)
+	if r == "sat" {
+		return true, "clause is false for the observed outputs " + obsJSON
+	}
+	return false, "clause evaluation on observed outputs: " + r
 }
